@@ -1059,6 +1059,12 @@ def run(tier, seed, ev, vd):
         ev.tlc_runs.append({'run': 'TRACE Trace_ElasticNet', 'events': sum(h.get('events', 0) for h in hist.values())})
         ev.extra['pairs_per_family_and_class'] = hist
         ev.extra['system_families_by_role'] = roles
+        ev.extra['observations_not_judged'] = (
+            'a second application of one ApplyRubberBand object adds the whole network a second time (every qualifying pair then '
+            'carries two bonds; see hist-twice:plain bonds above) - the statement speaks of one application; bin/martinize2 applies it '
+            'once. The shipped force fields declare a variable `res_min_dist` (3 for martini, 2 for elnedyn) while the processor reads '
+            '`elastic_network_res_min_dist`, so without -ermd the separation is 2 for every force field. Through the command line the '
+            'NaN warning names the molecule "None" (molecule types are named after the network is built).')
         ev.extra['class_legend'] = ('per generator family: number of particle pairs that are bonded / excluded by exactly the named '
                                     'criterion / by several (multi), as classified by TLC from ElasticNet!Failing; shortcut = excluded by '
                                     'the separation alone although the residue numbers differ by more than it (ring / branch); bynumber = '
